@@ -88,3 +88,8 @@ def pyCompress {α : Type} (data : List α) (sel : List Bool) : List α := ((dat
 def alistAppendTo {κ ν : Type} [BEq κ] (k : κ) (v : ν) : AList κ (List ν) → AList κ (List ν)
   | [] => [(k, [v])]
   | (k', vs) :: rest => if k' == k then (k', vs ++ [v]) :: rest else (k', vs) :: alistAppendTo k v rest
+
+/-- `itertools.combinations(l, 2)` -/
+def pyCombinations2 {α : Type} : List α → List (α × α)
+  | [] => []
+  | a :: l => l.map (fun b => (a, b)) ++ pyCombinations2 l
